@@ -39,7 +39,7 @@ def main():
         "setup_cmd": "./setup.sh",
         "hooks": {
             "guard": "SYMPLYPHYSICS_VERIF",
-            "enable": "no source hooks exist: every seam used by the simulator (id_generator._ids, module-global shadowing of `id`, `open` and `os`, sympy clear_cache, PYTHONHASHSEED, SYMPY_CACHE_SIZE) is reachable from outside the package; the guard name is reserved and unused",
+            "enable": "no source hooks exist: every seam used by the simulator (public next_id/last_id, module-global shadowing of `id`, `open`, `os`, `Path`, `shutil` and of helper functions, sympy clear_cache, sys.settrace, PYTHONHASHSEED, SYMPY_CACHE_SIZE) is reachable from outside the package; the guard name is reserved and unused",
             "baseline_off_cmd": "cd /repo && /venv/bin/python -m pytest -ra -q -p no:cacheprovider --timeout=900 --continue-on-collection-errors",
             "source_commits": [],
             "add_only": True,
